@@ -731,7 +731,10 @@ def rule_R7(chk, repo, rid='C05.R7'):
             if isinstance(t, ast.Compare) and len(t.ops) == 1 and isinstance(t.comparators[0], ast.Constant):
                 val = t.comparators[0].value
                 par = parents.get(t)
-                if val == 0 and isinstance(t.ops[0], ast.NotEq) and isinstance(par, ast.comprehension) and \
+                negated = False
+                if isinstance(par, ast.UnaryOp) and isinstance(par.op, ast.Not):
+                    negated, par = True, parents.get(par)         # `not x == 0` is `x != 0`
+                if val == 0 and isinstance(t.ops[0], ast.Eq if negated else ast.NotEq) and isinstance(par, ast.comprehension) and \
                         isinstance(par.iter, ast.Name) and par.iter.id in fi.params and \
                         norm(t.left) == f'{norm(par.target)}.coeff':
                     role = 'filter of input chains with zero coefficient'
